@@ -71,7 +71,7 @@ func c01Setup(p int) (*VEnv, *c01Ghost) {
 		}
 		amt := sdkmath.NewIntFromBigInt(sym.BigInt("amount", 128))
 		id, err := env.K.AddToOutgoingPool(env.Ctx, sender, c01Receiver, sdk.Coin{Denom: vDenom, Amount: amt}, vChain)
-		sym.Assume(err == nil) // only accepted sends build the pre-state
+		sym.Assume(err == nil)                             // only accepted sends build the pre-state
 		sym.Assert(id == uint64(i+2), "send-ids-increase") // autoIncrementID starts at 1 and returns 2 first
 		tax := new(big.Int).Quo(new(big.Int).Mul(amt.BigInt(), new(big.Int).SetUint64(num)), new(big.Int).SetUint64(den))
 		g.amount = append(g.amount, amt)
